@@ -121,7 +121,8 @@ class R:
             m_t, q_t = "Empty", "Empty"
         else:
             m_t, q_t = M, Q
-        lines = [f"pub mod {part['module']} {{", "    use super::*;", f"    #[{sv}::interface]"]
+        mods = part["module"].split("::")
+        lines = [f"pub mod {m} {{" for m in mods] + ["    use " + "super::" * len(mods) + "*;", f"    #[{sv}::interface]"]
         item_start = len(lines)
         if mode == "fixed":
             lines.append(f"    #[sv::custom(msg={M}, query={Q})]")
@@ -157,7 +158,7 @@ class R:
             lines.append("        " + extra)
         lines.append("    }")
         self._iface_items[part["id"]] = "\n".join(lines[item_start:])
-        lines.append("}")
+        lines += ["}"] * len(mods)
         # impl on the contract
         lines.append(f"impl{self.gdecl} {part['module']}::{part['trait']} for {self.cid}{self.gdecl}{self.gwhere} {{")
         lines.append(f"    type Error = {part['error']};")
